@@ -414,4 +414,5 @@ mod classify {
     }
     h!(c01_classify_2, 2, 6);
     h!(c01_classify_3, 3, 7);
+    h!(c01_classify_4, 4, 8);
 }
